@@ -147,7 +147,11 @@ def r02_1(ctx):
         tr = strace(sup, n, t["args"][0], extra=("std::str::from_utf8", "core::str::from_utf8"))
         # exempt only text that provably comes from a chunker document (already re-encoded);
         # anything else is treated as derived from the whole input
-        ctr = strace(sup, n, t["args"][0], extra=("::content", "Document::"))
+        # accessors of the chunker's item type (whatever it is called) are looked through
+        ch_next = common.chunker(ctx.facts)["next"]
+        m_doc = re.search(r"Result<([A-Za-z0-9_:]+)[<,]", ch_next.local_ty(0))
+        doc_short = (m_doc.group(1).rsplit("::", 1)[-1] + "::") if m_doc else "Document::"
+        ctr = strace(sup, n, t["args"][0], extra=(doc_short,))
         chunk_fed = bool(ctr.origin and ctr.origin[0] == "call" and common.is_chunker_next(ctx.facts, fn_of(ctr.origin[2])))
         whole = not chunk_fed
         if not whole:
